@@ -24,7 +24,8 @@ META = {
                   "tight, pad monotone, wrong dimension raises), cross/det expansions and Lagrange, rotate_2d and Rodrigues rotation "
                   "isometric / fixing the axis, 3-point angle symmetric and in [0,pi] (given atan2's contract), 2D angle "
                   "antisymmetric, cotan * |BAxBC| = BA.BC, circumcentre equidistant and coplanar (whenever the function returns), "
-                  "principal_angle / angle_diff congruent mod 2pi and in range, roots^n = c/|c|; the frame theorem: every function of "
+                  "principal_angle / angle_diff congruent mod 2pi and in range, roots^n = c/|c|, det_2x2 independent of the representation "
+                  "(complex / array) of each column, solve_quadratic returns roots, unit_cube; the frame theorem: every function of "
                   "the five files (event table regenerated from the source) leaves argument arrays, other boxes and numpy's error "
                   "register as found on return and on raise, boxes own fresh arrays. PARTIAL (guard named in the theorem): rotation "
                   "additivity for angles that are 0 or outside the code's own 1e-12 cut-off; signed-angle antisymmetry when the "
@@ -95,6 +96,29 @@ class Prog:
 
 
 KINDS = ["l2", "l1", "linf"]
+# accepted representations of each array argument (see vf/impl/c12_driver.py): the ndarray, a Vec view, a list, a tuple,
+# a complex number.  Every argument draws its own representation, independently of the others (mixed calls).
+REPS_SEQ = {"cross", "dot", "det2", "det3", "cotan", "angle3", "sangle2", "angle2d", "angle3d", "rot2d", "rotaxis",
+            "rot2d2", "rotaxis2"}            # index / convert their arguments: lists and tuples are accepted
+REPS_CPLX = {"det2"}                          # Union[complex, np.ndarray]
+
+
+def draw_reps(rng, name, n):
+    out = []
+    for _ in range(n):
+        choices = ["a", "v", "v"]
+        if name in REPS_SEQ:
+            choices += ["l", "t"]
+        if name in REPS_CPLX:
+            choices += ["c", "c", "c"]
+        out.append(rng.choice(choices))
+    return out
+
+
+def box_rep(rng, n=1):
+    return "".join(rng.choice(["a", "v", "l", "t"]) for _ in range(n))
+
+
 ERRMODES = [["warn", "warn", "ignore", "warn"], ["ignore", "ignore", "ignore", "ignore"], ["warn", "warn", "warn", "warn"],
             ["ignore", "warn", "ignore", "ignore"], ["print", "ignore", "ignore", "warn"]]
 
@@ -121,7 +145,7 @@ def gen_box_prog(rng):
             lo, hi = a, rand_vec(rng, rng.choice([x for x in (1, 2, 3, 4) if x != d] or [d + 1]), style)   # malformed
         sa, sb = P.arr(lo), P.arr(hi)
         nb = P.newbox()
-        P.ops.append(["box", nb, sa, sb])
+        P.ops.append(["box", nb, sa, sb, box_rep(rng, 2)])
         if len(lo) == len(hi):
             boxes.append(nb)
             P.bdims[nb] = d
@@ -133,7 +157,7 @@ def gen_box_prog(rng):
         if rng.random() < 0.06:
             pts = []
         nb = P.newbox()
-        P.ops.append(["ofpts", nb, pts, rng.choice([0, 0, 0, 0.5, 1, -0.25])])
+        P.ops.append(["ofpts", nb, pts, rng.choice([0, 0, 0, 0.5, 1, -0.25]), rng.choice(["a", "l", "v"])])
         if pts:
             boxes.append(nb)
             P.bdims[nb] = d
@@ -150,12 +174,12 @@ def gen_box_prog(rng):
         b = rng.choice(boxes)
         s = rng.choice(pts)
         if r < 0.13:
-            P.ops.append(["contains", b, s])
+            P.ops.append(["contains", b, s, box_rep(rng)])
         elif r < 0.30:
-            P.ops.append(["project", b, s])
+            P.ops.append(["project", b, s, box_rep(rng)])
         elif r < 0.52:
             w = rng.choice(KINDS) if rng.random() > 0.05 else rng.choice(["l3", "L2", ""])
-            P.ops.append(["distance", b, s, w])
+            P.ops.append(["distance", b, s, w, box_rep(rng)])
         elif r < 0.60:
             nb = P.newbox()
             P.ops.append(["union", nb, b, rng.choice(boxes)])
@@ -176,7 +200,21 @@ def gen_box_prog(rng):
             P.ops.append(["pad_s", b, rng.choice([0.5, 1.0, 0.0, -1.0, 0.25, 2.0])])
         else:
             pv = P.arr([rng.choice([0, 1, -1, 0.5, 2]) for _ in range(d if rng.random() > 0.1 else d + 1)])
-            P.ops.append(["pad_v", b, pv])
+            P.ops.append(["pad_v", b, pv, box_rep(rng)])
+    # the classmethod constructors
+    if rng.random() < 0.25:
+        nb = P.newbox()
+        P.ops.append(["unit_cube", nb, d, rng.random() < 0.5])
+        P.bdims[nb] = d
+        P.ops.append([rng.choice(["contains", "project"]), nb, rng.choice(pts), box_rep(rng)])
+        if rng.random() < 0.5:
+            P.ops.append(["do_intersect", nb, rng.choice(boxes)])
+    if rng.random() < 0.1:
+        P.ops.append(["infinite", P.newbox(), d])
+    if d == 3 and rng.random() < 0.3:
+        nb = P.newbox()
+        P.ops.append(["of_mesh", nb, [P.arr(rand_vec(rng, 3, style), "f") for _ in range(rng.choice([1, 2, 4]))],
+                      rng.choice([0, 0, 0.5, 1])])
     return P
 
 
@@ -209,7 +247,7 @@ def gen_vec_prog(rng):
             return P.arr(rand_vec(rng, 2, style))
 
         def fn(name, args, which=None, sc=()):
-            P.ops.append(["fn", name, list(args), which, list(sc)])
+            P.ops.append(["fn", name, list(args), which, list(sc), draw_reps(rng, name, len(args))])
         if r < 0.07:
             a, b = V(), V()
             fn("cross", [a, b])
@@ -227,7 +265,9 @@ def gen_vec_prog(rng):
             v = rand_vec(rng, d, style) if deg > 0.15 else [0] * d
             fn("normalized", [P.arr(v)], rng.choice(KINDS))
         elif r < 0.28:
-            fn("det2", [V2(), V2()])
+            a, b = V2(), V2()
+            fn("det2", [a, b])
+            fn("det2", [b, a])
             fn("det3", [V(), V(), V()])
         elif r < 0.36:
             a, b, c = V(), V(), V()
@@ -299,6 +339,29 @@ def gen_vec_prog(rng):
             if re == 0 and im == 0 and rng.random() < 0.8:
                 re = 1
             fn("roots", [], None, [re, im, rng.randint(1, 8)])
+        # the remaining primitives of geometry.py / maths.py / vector.py
+        r2 = rng.random()
+        if r2 < 0.05:
+            fn("quad_area", [V(), V(), V(), V()])
+        elif r2 < 0.10:
+            fn("aspect_ratio", [V(), V(), V()])
+        elif r2 < 0.16:
+            a, b = V2(), V2()
+            if deg > 0.85:
+                b = a
+            fn("dist_seg2d", [V2(), a, b])
+        elif r2 < 0.21:
+            A_ = rng.choice([0, 1, 1, 2, -1, 0.5])
+            fn("solve_quadratic", [], None, [A_, rng.randint(-4, 4), rng.randint(-4, 4)])
+        elif r2 < 0.25:
+            fn("outer", [P.arr(rand_vec(rng, rng.choice([1, 2, 3]), style)), P.arr(rand_vec(rng, rng.choice([1, 2, 3]), style))])
+        elif r2 < 0.29:
+            fn("axis_rot_from_z", [V()])
+        elif r2 < 0.33:
+            v = rand_vec(rng, rng.choice([1, 2, 3, 4]), "int")
+            if all(x == 0 for x in v):
+                v[0] = 1
+            P.ops.append(["normalize", P.arr(v, "f"), rng.choice(KINDS)])
     return P
 
 
@@ -308,6 +371,8 @@ FN = {"cross": "FCross", "dot": "FDot", "vdot": "FVDot", "norm": "FNorm", "vnorm
       "sangle2": "FSAngle2", "sangle3": "FSAngle3", "angle2d": "FAngle2D", "angle3d": "FAngle3D", "circum": "FCircum",
       "face_basis": "FFaceBasis", "line2": "FLine2", "plane": "FPlane", "tri_area": "FTriArea",
       "tri_area2d": "FTriArea2D", "rot2d": "FRot2D", "rotaxis": "FRotAxis", "rot2d2": "FRot2D2", "rotaxis2": "FRotAxis2",
+      "quad_area": "FQuadArea", "aspect_ratio": "FAspect", "dist_seg2d": "FDistSeg", "solve_quadratic": "FSolveQuad",
+      "outer": "FOuter", "axis_rot_from_z": "FAxisRotZ",
       "sign0": "FSign0", "sign": "FSign", "principal": "FPrincipal", "angle_diff": "FAngleDiff", "roots": "FRoots"}
 EXACT_FN = {"cross", "dot", "vdot", "det2", "det3", "tri_area2d", "sign0", "sign"}
 KIND = {"l2": "L2", "l1": "L1", "linf": "Linf"}
@@ -382,6 +447,17 @@ def op_term(op, ob):
         return "(ODoInt %s %s)" % (zlit(op[1]), zlit(op[2]))
     if k in ("is_empty", "span", "center"):
         return "(%s %s)" % ({"is_empty": "OIsEmpty", "span": "OSpan", "center": "OCenter"}[k], zlit(op[1]))
+    if k == "unit_cube":
+        return "(OUnitCube %s %s %s)" % (zlit(op[1]), zlit(op[2]), coq_bool(op[3]))
+    if k == "infinite":
+        return "(OInfinite %s %s)" % (zlit(op[1]), zlit(op[2]))
+    if k == "of_mesh":
+        return "(OOfMesh %s %s %s)" % (zlit(op[1]), zlist(op[2]), q(op[3]))
+    if k == "normalize":
+        after = ob["r"][1] if ob["exc"] is None and ob["r"][0] == "v" and finite(ob["r"][1]) else None
+        if after is None:
+            return "OSetErr"       # not representable (nan after normalising a zero vector): judged by the oracle only
+        return "(ONormalize %s %s %s)" % (zlit(op[1]), KIND.get(op[2], "KBad"), qvec(after))
     if k == "fn":
         name, args, which, sc = op[1], op[2], op[3], op[4]
         fls = []
@@ -395,8 +471,10 @@ def op_term(op, ob):
         elif name == "roots" and r[0] == "roots":
             fls = [r[2]]
         kk = "L2" if which is None else KIND.get(which, "KBad")
-        return "(OFn %s %s %s %s %s)" % (FN[name], zlist(args), kk, coq_list([q(x) for x in sc]),
-                                          coq_list([float_pair(x) for x in fls]))
+        reps = (list(op[5]) if len(op) > 5 and op[5] else []) + ["a"] * len(args)
+        return "(OFn %s %s %s %s %s %s)" % (FN[name], zlist(args), kk, coq_list([q(x) for x in sc]),
+                                             coq_list([float_pair(x) for x in fls]),
+                                             coq_list([coq_bool(c == "c") for c in reps[:len(args)]]))
     raise ValueError(op)
 
 
@@ -419,7 +497,11 @@ def ill_conditioned(op, A):
 
 
 def robs_term(op, ob, skip=False):
-    if skip:
+    if skip or op[0] == "infinite" or (op[0] == "fn" and op[1] == "axis_rot_from_z" and ob["exc"] is None):
+        return "RSkip"
+    if op[0] == "normalize":
+        if ob["exc"] is None and ob["r"][0] == "v" and finite(ob["r"][1]):
+            return "(RVF %s)" % fvec(ob["r"][1])
         return "RSkip"
     if ob["exc"] is not None:
         e = EXN.get(ob["exc"])
@@ -455,7 +537,10 @@ def robs_term(op, ob, skip=False):
 def obs_term(op, ob, skip=False):
     bc = coq_list(["(%s, (%s, %s))" % (zlit(b[0]), qvec(b[1]), qvec(b[2])) for b in ob["boxchg"]
                    if finite(b[1]) and finite(b[2])])
-    return "(mkobs %s %s %s %s %s)" % (robs_term(op, ob, skip), coq_bool(ob["err_same"]), zlit(len(ob["arrchg"])), bc,
+    nchg = len(ob["arrchg"])
+    if op[0] == "normalize" and not (ob["exc"] is None and ob["r"][0] == "v" and finite(ob["r"][1])):
+        nchg = 0            # encoded as a no-op (see op_term)
+    return "(mkobs %s %s %s %s %s)" % (robs_term(op, ob, skip), coq_bool(ob["err_same"]), zlit(nchg), bc,
                                        zlit(len(ob["alias"])))
 
 
@@ -524,7 +609,8 @@ def oracle_prog(prog, obs):
         if not ob["err_same"]:
             bad(i, "effects/err-register/" + name, "numpy's floating-point error configuration was %s before the call and %s after (%s)"
                 % (ob["err"][0] if ob.get("err") else "?", ob["err"][1] if ob.get("err") else "?", "raised " + exc if exc else "returned"))
-        if ob["arrchg"]:
+        own = {op[1]} if k == "normalize" else set()
+        if [c for c in ob["arrchg"] if c[0] not in own]:
             bad(i, "effects/argument-array/" + name, "caller array(s) %s changed by the call: now %s" % ([c[0] for c in ob["arrchg"]], [c[1] for c in ob["arrchg"]]))
         if ob["alias"]:
             bad(i, "effects/alias", "after %s: box corners share memory with caller arrays / other boxes: %s" % (name, ob["alias"][:4]))
@@ -533,8 +619,10 @@ def oracle_prog(prog, obs):
             if c[0] not in allowed:
                 bad(i, "effects/other-box/" + name, "box %d changed by a call that is not documented to modify it" % c[0])
         if exc is not None and exc.startswith("other"):
-            if not (k == "fn" and op[1] in ("cross", "det2", "det3") ):
-                bad(i, "raise/unexpected/%s/%s" % (name, exc.split(":")[1].strip()), "unexpected exception %s" % exc)
+            bad(i, "raise/unexpected/%s/%s" % (name, exc.split(":")[1].strip()), "unexpected exception %s" % exc)
+            continue
+        if r[0] == "other":
+            bad(i, "result/shape/" + name, "%s returned %s" % (name, r[1]))
             continue
         # ---------------- algebra
         try:
@@ -543,13 +631,13 @@ def oracle_prog(prog, obs):
             pass
         # shadow update
         if exc is None:
-            if k in ("box", "ofpts", "union", "inter") and r[0] == "box" and finite(r[1]) and finite(r[2]):
+            if k in ("box", "ofpts", "union", "inter", "unit_cube", "of_mesh") and r[0] == "box" and finite(r[1]) and finite(r[2]):
                 B[op[1]] = (frs(r[1]), frs(r[2]))
         for c in ob["boxchg"]:
             if finite(c[1]) and finite(c[2]):
                 B[c[0]] = (frs(c[1]), frs(c[2]))
         for c in ob["arrchg"]:
-            if finite(c[1]):
+            if isinstance(c[0], int) and finite(c[1]):
                 A[c[0]] = frs(c[1])
     return fails
 
@@ -592,6 +680,44 @@ def oracle_op(i, op, ob, A, B, ops, obs, bad):
             if not all(lo[j] + pad <= x <= hi[j] - pad for x in col) or (lo[j] + pad) not in col or (hi[j] - pad) not in col:
                 bad(i, "box/of_points/tight", "box of %s (padding %s) is [%s, %s] in coordinate %d" % (col, pad, lo[j], hi[j], j))
                 return
+        return
+    if k == "unit_cube":
+        n, c = int(op[2]), bool(op[3])
+        want = ([Fr(-1, 2)] * n, [Fr(1, 2)] * n) if c else ([Fr(0)] * n, [Fr(1)] * n)
+        if exc or (frs(r[1]), frs(r[2])) != want:
+            bad(i, "box/unit_cube", "unit_cube(%d, centered=%s) is %s" % (n, c, exc or r))
+        return
+    if k == "infinite":
+        n = int(op[2])
+        if exc or r[1] != ["-inf"] * n or r[2] != ["inf"] * n:
+            bad(i, "box/infinite", "infinite(%d) is %s" % (n, exc or r))
+        return
+    if k == "of_mesh":
+        pts = [A[s] for s in op[2]]
+        pad = Fr(op[3])
+        if exc:
+            bad(i, "box/of_mesh/raise", "of_mesh raised %s" % exc)
+            return
+        lo, hi = [float(x) for x in r[1]], [float(x) for x in r[2]]
+        for j in range(3):
+            col = [float(p[j]) for p in pts]
+            if not close(lo[j], min(col) - float(pad)) or not close(hi[j], max(col) + float(pad)):
+                bad(i, "box/of_mesh/tight", "box of the mesh vertices %s (padding %s) is [%s, %s] in coordinate %d" % (col, pad, lo[j], hi[j], j))
+                return
+        return
+    if k == "normalize":
+        v = A[op[1]]
+        if exc:
+            bad(i, "fn/normalize/raise", "normalize raised %s" % exc)
+            return
+        if not finite(r[1]):
+            return
+        n = [float(x) for x in r[1]]
+        which = op[2]
+        nn = {"l2": math.sqrt(sum(x * x for x in n)), "l1": sum(abs(x) for x in n), "linf": max([abs(x) for x in n] or [1])}[which]
+        if not close(nn, 1.0) or any(not close(x * float(y2), y * float(x2)) for x, x2 in zip(n, v) for y, y2 in zip(n, v)) \
+                or any(x * float(x2) < 0 for x, x2 in zip(n, v)):
+            bad(i, "fn/normalize/value", "normalize(%s, %s) leaves %s" % (v, which, n))
         return
     if k in ("pad_s", "pad_v"):
         lo, hi = B[op[1]]
@@ -731,7 +857,8 @@ def oracle_fn(i, op, ob, A, ops, obs, bad):
         elif name in ("dot", "vdot") and Fr(r[1]) != fdot(a[0], a[1]):
             bad(i, "fn/dot", "dot(%s, %s) = %s" % (a[0], a[1], r[1]))
         elif name == "det2" and Fr(r[1]) != a[0][0] * a[1][1] - a[0][1] * a[1][0]:
-            bad(i, "fn/det2", "det_2x2(%s, %s) = %s" % (a[0], a[1], r[1]))
+            reps = op[5] if len(op) > 5 else "?"
+            bad(i, "fn/det2", "det_2x2(%s, %s) passed as %s = %s, x1*y2 - y1*x2 = %s" % (a[0], a[1], reps, r[1], a[0][0] * a[1][1] - a[0][1] * a[1][0]))
         elif name == "det3" and Fr(r[1]) != fdot(a[0], fcross(a[1], a[2])):
             bad(i, "fn/det3", "det_3x3(%s, %s, %s) = %s" % (a[0], a[1], a[2], r[1]))
         return
@@ -908,6 +1035,75 @@ def oracle_fn(i, op, ob, A, ops, obs, bad):
             if any(abs(p - q2) > 1e-8 * (1 + abs(q2)) for p, q2 in zip(y1, y2)):
                 bad(i, "fn/%s/additive" % name, "rotating %s by %s then %s gives %s, by the sum %s" % (x, sc[0], sc[1], y1, y2))
         return
+    if name == "quad_area":
+        if exc:
+            return unexpected()
+        def ar(p, q2, r2):
+            c = fcross(fsub(q2, p), fsub(r2, p))
+            return math.sqrt(float(fdot(c, c))) / 2
+        want = (ar(a[0], a[1], a[2]) + ar(a[0], a[2], a[3]) + ar(a[1], a[2], a[3]) + ar(a[1], a[3], a[0])) / 2
+        if not close(float(r[1]), want, 1e-8):
+            bad(i, "fn/quad_area", "quad_area(%s) = %s" % (a, r[1]))
+        return
+    if name == "aspect_ratio":
+        if exc:
+            return unexpected()
+        ab, bc, ca = (math.sqrt(float(fdot(fsub(p, q2), fsub(p, q2)))) for p, q2 in ((a[0], a[1]), (a[1], a[2]), (a[2], a[0])))
+        sp = (ab + bc + ca) / 2
+        den = 8 * (sp - ab) * (sp - bc) * (sp - ca)
+        if abs(den) < 1e-9 or isinstance(r[1], str):
+            return
+        if not close(float(r[1]), ab * bc * ca / den, 1e-6):
+            bad(i, "fn/aspect_ratio", "aspect_ratio(%s) = %s" % (a, r[1]))
+        return
+    if name == "dist_seg2d":
+        if exc:
+            return unexpected()
+        Pp, Aa, Bb = a
+        sg = fsub(Bb, Aa)
+        l2 = fdot(sg, sg)
+        if l2 < Fr(1, 10 ** 12):
+            pr = Aa
+        else:
+            t = max(Fr(0), min(Fr(1), fdot(fsub(Pp, Aa), sg) / l2))
+            pr = [x + t * y for x, y in zip(Aa, sg)]
+        d2 = fdot(fsub(Pp, pr), fsub(Pp, pr))
+        if not close(float(r[1]) ** 2, float(d2), 1e-8):
+            bad(i, "fn/distance_to_segment2D", "distance_to_segment2D(%s) = %s" % (a, r[1]))
+        return
+    if name == "solve_quadratic":
+        if exc:
+            return unexpected()
+        qa, qb, qc = (float(x) for x in sc)
+        roots = [float(x) for x in r[1]]
+        disc = qb * qb - 4 * qa * qc
+        if any(abs(qa * x * x + qb * x + qc) > 1e-6 * (1 + abs(x)) ** 2 for x in roots):
+            bad(i, "fn/solve_quadratic/root", "solve_quadratic(%s) = %s: not all are roots" % (sc, roots))
+        elif qa != 0 and abs(disc) > 1e-9 and len(roots) != (2 if disc > 0 else 0):
+            bad(i, "fn/solve_quadratic/count", "solve_quadratic(%s) returned %d roots, discriminant %s" % (sc, len(roots), disc))
+        elif qa == 0 and len(roots) != (1 if qb != 0 else 0):
+            bad(i, "fn/solve_quadratic/linear", "solve_quadratic(%s) returned %s" % (sc, roots))
+        return
+    if name == "outer":
+        if exc:
+            return unexpected()
+        want = [[x * y for y in a[1]] for x in a[0]]
+        if [frs(row) for row in r[1]] != want:
+            bad(i, "fn/outer", "outer(%s, %s) = %s" % (a[0], a[1], r[1]))
+        return
+    if name == "axis_rot_from_z":
+        if exc:
+            return unexpected()
+        v = F[0]
+        ax = [float(x) for x in r[1]]
+        cr = [-v[1], v[0], 0.0]                        # (0,0,1) x v
+        ncr = math.sqrt(cr[0] ** 2 + cr[1] ** 2)
+        ang = math.atan2(ncr, v[2])
+        if ncr > 1e-8:
+            want = [c / ncr * ang for c in cr]
+            if any(abs(p - q2) > 1e-8 for p, q2 in zip(ax, want)):
+                bad(i, "fn/axis_rot_from_z", "axis_rot_from_z(%s) = %s" % (v, ax))
+        return
     if name in ("sign0", "sign"):
         v = Fr(sc[0])
         want = (1 if v >= 0 else -1) if name == "sign0" else (1 if v > 0 else (-1 if v < 0 else 0))
@@ -971,6 +1167,12 @@ def op_uses(op):
         return [], [op[1], op[2]], None
     if k == "fn":
         return list(op[2]), [], None
+    if k == "unit_cube":
+        return [], [], op[1]
+    if k == "of_mesh":
+        return list(op[2]), [], op[1]
+    if k == "normalize":
+        return [op[1]], [], None
     return [], [], None
 
 
@@ -1019,7 +1221,7 @@ def shrink(prog, key, budget=25):
 def nontrivial(prog, obs):
     """at least one box query answered on a non-degenerate box, or one primitive that returned a value"""
     for op, ob in zip(prog["ops"], obs):
-        if op[0] in ("project", "distance", "contains", "union", "inter", "do_intersect", "pad_s", "pad_v") and ob["exc"] is None:
+        if op[0] in ("project", "distance", "contains", "union", "inter", "do_intersect", "pad_s", "pad_v", "normalize") and ob["exc"] is None:
             return True
         if op[0] == "fn" and ob["exc"] is None:
             return True
@@ -1045,9 +1247,11 @@ def run(ctx):
         "ambient np.seterr modes used by the generator never raise (ignore/warn/print)",
     ]
     ctx.notes += [
-        "not covered by theorems or correspondence: quad_area, aspect_ratio, distance_to_segment2D, solve_quadratic, "
-        "axis_rot_from_z, match_rotation, AABB.unit_cube/infinite/of_mesh, Vec.normalize/outer/random (they are in the "
-        "side-effect event table only); meshes are not exercised (of_mesh only reads mesh.vertices)",
+        "correspondence + oracle only (no theorem): quad_area, aspect_ratio, distance_to_segment2D, of_mesh, Vec.normalize, "
+        "Vec.outer; oracle only (atan2 value / infinite corners): axis_rot_from_z, AABB.infinite; event table only: "
+        "match_rotation (scipy), Vec.random/zeros/X/Y/Z/from_complex, __repr__/__and__/__or__",
+        "every array argument is passed in an independently drawn representation (ndarray / Vec view / list / tuple, complex "
+        "for det_2x2) where the primitive accepts it",
         "the event table is a syntactic summary (in-place operators, subscript/attribute stores, known mutating methods, "
         "np.seterr*, out= keywords fail closed); exotic in-place forms would be missed by the table but not by the driver's "
         "before/after comparison of every caller array, box and np.geterr()",
